@@ -39,6 +39,16 @@ def main():
             x_c10.mark("setup-done")
             res.append(dict(status=0, error=None, api=[], files=[], body=""))
             continue
+        if r["method"] == "_CRASH":
+            # not a request: ANOTHER server process (a fork of this one, same code, same configuration) dies in the
+            # middle of the write request r["request"], right before its r["at"]-th file system mutation below the
+            # storage folder; afterwards r["age"] seconds pass (every mtime below the folder moves into the past).
+            # What the following requests find is whatever the real code leaves behind at that point.
+            x_c10.mark("end")
+            left = x_c10.crash_write(srv, spec["folder"], r["request"], r.get("at", 1), r.get("age", 0))
+            x_c10.mark("setup-done")
+            res.append(dict(status=0, error=None, api=[], files=[], body="", crash=left))
+            continue
         if r["method"] == "_SLEEP":
             import time
             time.sleep(r.get("seconds", 0.5))       # gives a left-over of the hook time to act (strace sees it)
